@@ -632,8 +632,9 @@ impl QueryEngine {
                 }
             },
             Some(QueryType::GetRecord { context }) => match message {
-                KademliaMessage::GetRecord { record, peers, .. } =>
-                    context.register_response(peer, record, peers),
+                KademliaMessage::GetRecord { record, peers, .. } => {
+                    context.register_response(peer, record, peers)
+                }
                 message => {
                     tracing::debug!(
                         target: LOG_TARGET,
@@ -848,11 +849,12 @@ impl QueryEngine {
                 peers: context.responses.into_values().collect::<Vec<_>>(),
                 quorum,
             },
-            QueryType::AddProviderToFoundNodes { context } =>
+            QueryType::AddProviderToFoundNodes { context } => {
                 QueryAction::AddProviderQuerySucceeded {
                     query: context.query,
                     provided_key: context.key,
-                },
+                }
+            }
             QueryType::GetProviders { context } => QueryAction::GetProvidersQueryDone {
                 query_id: context.config.query,
                 provided_key: context.config.target.clone().into_preimage(),
@@ -887,8 +889,9 @@ impl QueryEngine {
                 Some(QueryAction::QuerySucceeded { query }) => {
                     return Some(self.on_query_succeeded(query));
                 }
-                Some(QueryAction::QueryFailed { query }) =>
-                    return Some(self.on_query_failed(query)),
+                Some(QueryAction::QueryFailed { query }) => {
+                    return Some(self.on_query_failed(query))
+                }
                 Some(_) => return action,
                 _ => continue,
             }
